@@ -39,11 +39,18 @@ def position_matrix():
             pats.append(("call", [meth("a", [(("call", "self", "b"), pos)]), meth("b", [(("attr", "self", "x"), "PBody")]), meth("c", [])]))
             pats.append(("call-shared-name", [meth("a", [(("call", "self", "helper"), pos)]), meth("b", [(("call", "self", "helper"), "PAssignValue")]), meth("c", [(("attr", "self", "w"), "PBody")])]))
             pats.append(("call-other", [meth("a", [(("call", "other", "b"), pos)]), meth("b", [])]))
+            # hidden inside another call's argument list (slot rotates with the position)
+            sl = cg.SLOTS[BODY_POS.index(pos) % len(cg.SLOTS)]
+            sl2 = cg.SLOTS[(BODY_POS.index(pos) + 2) % len(cg.SLOTS)]
+            pats.append(("nested-attr", [meth("a", [(("inst", ("", "Dep")), pos, [(sl, (("attr", "self", "x"), []))])]),
+                                         meth("b", [(("call", "other", "fn"), "PAssignValue", [(sl2, (("call", "other", "g"), [("SArg", (("attr", "self", "x"), []))]))])]),
+                                         meth("c", [(("attr", "self", "z"), "PBody")])]))
+            pats.append(("nested-call", [meth("a", [(("call", "self", "c"), pos, [(sl, (("call", "self", "b"), []))])]), meth("b", []), meth("c", []), meth("d", [])]))
             pats.append(("attr-named-like-method", [meth("a", [(("attr", "self", "b"), pos)]), meth("b", []), meth("c", [(("inst", ("", "b")), pos)])]))
         for pname, members in pats:
             if k == "callonly" and pname.startswith("attr"):
                 continue
-            if k == "d" and pname not in ("attr-attr", "call", "attr-other"):
+            if k == "d" and pname not in ("attr-attr", "call", "attr-other", "nested-attr", "nested-call"):
                 continue
             out.append(mk_case(dict(name="K", bases=[], members=members), "position", {"position": pos, "pattern": pname}))
     return out
@@ -83,6 +90,14 @@ def rand_class(rng, nmax=12, dup=False, mixed=False):
                 body.append((("call", obj, rng.choice(names + ["inherited", "helper"])), rng.choice(EXPR_BODY_POS)))
             else:
                 body.append((("inst", ("", rng.choice(["Dep", "m0", "f0"]))), rng.choice(EXPR_BODY_POS)))
+        # hide some of the mentions inside the argument list of another call
+        for i, x in enumerate(body):
+            if rng.random() < 0.25:
+                host = rng.choice([("inst", ("", "Dep")), ("call", "other", "fn"), ("call", obj if x[0][0] != "inst" else "other", rng.choice(names + ["helper"]))])
+                inner = (x[0], [])
+                if rng.random() < 0.3:
+                    inner = (("call", "other", "wrap"), [(rng.choice(cg.SLOTS), inner)])
+                body[i] = (host, rng.choice(EXPR_BODY_POS), [(rng.choice(cg.SLOTS), inner)])
         members.append(meth(nm_, body, decos))
     if dup and n >= 2:
         # redefine a method under the same name (same kind unless mixed)
@@ -292,7 +307,8 @@ def main(tier):
     ck.cov.update({
         "evaluations": len(cases) + n_table + n_e2e,
         "distinct_nontrivial": len(distinct),
-        "rule": "position x access-pattern matrix (self.x shared, self.m() call, shared call name, other.x, cls.x, attribute named like a method), "
+        "rule": "position x access-pattern matrix (self.x shared, self.m() call, shared call name, other.x, cls.x, attribute named like a method, "
+                "self.x / self.m() hidden in the argument list of another call), "
                 "threshold lattice (1..8 components x 9 threshold pairs), random classes (0..12 methods, shared attributes, self-calls, static/class methods, "
                 "duplicate method names, every position), parser position table, CLI runs with default and custom [lcom] thresholds; distinct = distinct source texts",
         "input_distribution": dict(dist, position_table_probes=n_table, e2e_classes=n_e2e,
